@@ -236,6 +236,15 @@ pub fn run(tier: Tier, seed: u64) -> i32 {
         ("canned:init+fragment".into(), frag),
     ];
     files.extend(crate::refmp4::kitchen::c15_files(tier));
+    {
+        // movie timescale 1 with tracks shorter than a second: the movie header duration is 0 while the tracks differ
+        let m = MovieSpec::new(1, vec![TrackSpec::new(Kind::Avc, 1000), TrackSpec::new(Kind::Aac, 48000), TrackSpec::new(Kind::Ttxt, 10)]);
+        let h = vec![Op { track: 1, size: 3, dur: 600, off: 0, sync: true }, Op { track: 2, size: 2, dur: 43200, off: 0, sync: true }, Op { track: 3, size: 0, dur: 3, off: 0, sync: true }, Op { track: 3, size: 4, dur: 4, off: 0, sync: true }];
+        match mux(seed, &m, &h) {
+            Ok(o) => files.push(("mux:movie-timescale-1,three-short-tracks".into(), o.bytes)),
+            Err(e) => machinery_failure(&format!("C15 file does not mux: {}", e)),
+        }
+    }
     for (name, bytes) in files.iter() {
         reader_graph(name, bytes, bytes.len() as u64, if th { 3 } else { 2 }, &mut l, &mut states, &mut trans);
     }
@@ -263,8 +272,12 @@ pub fn run(tier: Tier, seed: u64) -> i32 {
         };
         let ta: Vec<Vec<String>> = sorted_track_ids(&a).iter().map(|i| canon(format!("{:#?}", a.tracks()[i]))).collect();
         let tb: Vec<Vec<String>> = sorted_track_ids(&b).iter().map(|i| canon(format!("{:#?}", b.tracks()[i]))).collect();
-        let same = a.ftyp == b.ftyp && a.moov == b.moov && a.moofs == b.moofs && a.emsgs == b.emsgs && a.size() == b.size() && ja == jb && ta == tb;
-        if same {
+        let acc = |r: &Mp4Reader<std::io::Cursor<&[u8]>>| format!("{:?} {} {:?} {} {:?} {}", r.duration(), r.timescale(), r.major_brand(), r.minor_version(), r.compatible_brands(), r.is_fragmented());
+        let same = a.ftyp == b.ftyp && a.moov == b.moov && a.moofs == b.moofs && a.emsgs == b.emsgs && a.size() == b.size() && ja == jb && ta == tb && acc(&a) == acc(&b);
+        // accessors that might consult an unordered container: a few more independent instances
+        let first = acc(&a);
+        let more_same = (0..6).all(|_| acc(&open(bytes).unwrap()) == first);
+        if same && more_same {
             l.outcome("parse_twice:equal");
         } else {
             l.violations.push(Violation::new("C15", "opening_same_bytes_twice_differs", json!({"engine": "parse_twice", "file": name})));
